@@ -150,15 +150,16 @@ func run(d desc) hlib.Case {
 				bw.Flush()
 				var r2 fasthttp.Response
 				if err := r2.Read(bufio.NewReader(&bb)); err == nil {
+					// Header.Cookie(&c) ignores ParseBytes' error (it returns true with a half-filled object);
+					// the observation is the parse of the stored Set-Cookie value, error included
 					n := 0
-					for range r2.Header.Cookies() {
+					var val []byte
+					for _, v := range r2.Header.Cookies() {
 						n++
+						val = append([]byte(nil), v...)
 					}
 					if n == 1 {
-						for k := range r2.Header.Cookies() {
-							via.SetKeyBytes(k)
-						}
-						viaOK = r2.Header.Cookie(&via)
+						viaOK = via.ParseBytes(val) == nil
 					}
 				}
 			}
